@@ -293,6 +293,9 @@ func (uconn *UConn) removeSNIExtension() {
 		}
 	}
 	uconn.Extensions = filteredExts
+	// No server_name goes on the wire, so none must be reported either
+	// (Hello.ServerName becomes Conn.serverName / ConnectionState.ServerName).
+	uconn.HandshakeState.Hello.ServerName = ""
 }
 
 // Handshake runs the client handshake using given clientHandshakeState
